@@ -18,7 +18,7 @@ E1C_CONTAINERS = {
 }
 
 
-@rule("E1c", "ANNOUNCE-FIRST: a statement announces itself to the visitor before its operands are visited (hoisted calls land in their own statement)", ["C05", "C04", "C06"], floor=15, default_props=["C05", "C04"])
+@rule("E1c", "ANNOUNCE-FIRST: a statement announces itself to the visitor before its operands are visited (hoisted calls land in their own statement)", ["C05", "C04", "C06", "C01"], floor=15, default_props=["C05", "C04", "C01"])
 def e1c(ctx: Ctx):
     em = emitmodel(ctx)
     py = em.py
